@@ -809,6 +809,62 @@ class TwinProgram:
         return self.tasks[i].hash
 
 
+class NoProvMidProgram:
+    """report(shallow, records provenance) -> stage (records NO provenance) -> fetch; only `fetch` is edited.
+    `kind`: "option" = @task(prov=False) stage; "call" = stage.options(prov=False)(x); "no_prov" = report is the
+    library's `redun.functools.no_prov(stage(x))` (a shallow task above the prov=False helper).
+    Task indices for `edit`: 0 = fetch, 1 = stage."""
+
+    def __init__(self, kind="option", ns="gcnpm"):
+        self.kind, self.ns = kind, ns + kind
+        self.versions = [1, 1]
+        self.n = 2
+
+    def describe(self):
+        return dict(program="report(shallow) -> stage(prov=False: %s) -> fetch" % self.kind, versions=list(self.versions))
+
+    def edit(self, i):
+        self.versions[i] += 1
+
+    def expected_main(self):
+        return [2 + 100 * self.versions[0], self.versions[1]]
+
+    def define(self):
+        from redun import task
+        from redun.functools import no_prov
+        ns, vf, vs, kind = self.ns, self.versions[0], self.versions[1], self.kind
+
+        @task(name="fetch", namespace=ns, version=str(vf))
+        def fetch(x):
+            return x + 100 * vf
+
+        opts = dict(name="stage", namespace=ns, version=str(vs))
+        if kind == "option":
+            opts["prov"] = False
+
+        def stage_body(x):
+            return [fetch(x), vs]
+        stage_body.__name__ = "stage"
+        stage = task(**opts)(stage_body)
+
+        @task(name="report", namespace=ns, version="1", check_valid="shallow")
+        def report(x):
+            if kind == "call":
+                return stage.options(prov=False)(x)
+            return stage(x)
+
+        @task(name="main_npm", namespace=ns, version="1")
+        def main_npm():
+            if kind == "no_prov":
+                return no_prov(stage(2))
+            return report(2)
+        self.tasks = {0: fetch, 1: stage}
+        return main_npm
+
+    def task_hash(self, i):
+        return self.tasks[i].hash
+
+
 class BigProgram:
     """t0(x) -> t1(x); both return strings of a few hundred bytes (>= value_store_min_size of the test backend), so
     that their Value rows are placeholders and the data lives in the value store.  `runs` counts task executions."""
